@@ -14,7 +14,8 @@ LEAN_MODULES = ["Clikit.Props.C01"]
 REQUIRED_THEOREMS = ["Clikit.Props.C01." + n for n in (
     "parse_spells", "spellings_agree", "opt_single_last_wins", "opt_multi_in_order", "opt_without_value", "positional_kth",
     "runSem_other_option", "option_short_eq_long", "argument_index_eq_name", "option_default_when_absent",
-    "argument_default_when_absent", "arguments_listing")]
+    "argument_default_when_absent", "arguments_listing",
+    "positionals_in_order", "command_names_realigned", "real_arguments_follow_typed_names")]
 TECHNIQUE = ("Lean 4 model of DefaultArgsParser/Args with theorems about the token loop and the accessors + "
              "differential correspondence on generated formats x spellings, oracle re-deriving the intended assignment")
 LEVEL_TEXT = ("Proved in Lean on the parser/Args model, for EVERY format, item list, spelling and both modes: parse_spells - "
@@ -23,17 +24,27 @@ LEVEL_TEXT = ("Proved in Lean on the parser/Args model, for EVERY format, item l
               "conditions = the library's conventions) equals the token-free meaning of the items (each item updates the "
               "state by itself: last occurrence wins, multi-values accumulate in order, the k-th positional goes to the k-th "
               "argument, items never touch options they do not name) followed by parse()'s second half; hence two spellings "
-              "of the same items parse identically. Also proved: access by long name, short name and position agree, "
+              "of the same items parse identically. positionals_in_order / command_names_realigned / "
+              "real_arguments_follow_typed_names: after the token loop the argument dictionary is exactly `fill` of the "
+              "positional values in command-line order (k-th value to the k-th argument, a trailing multi-valued argument "
+              "takes the rest), and _insert_missing_command_names turns it into `fill` of the values with the omitted command "
+              "names put back behind the typed ones (names or aliases, longest matching prefix), so that the real arguments "
+              "are filled in order with the values behind the typed command names; nothing moves when all names are typed. "
+              "Also proved: access by long name, short name and position agree, "
               "everything not given reports its default. The model is tied to the code by differential runs (real parser vs "
               "model vs the token-free meaning of the generated items, strict and lenient) and an independent oracle that "
               "re-derives the intended assignment from the generator's intent.")
 LEVEL_NOTE = ("Trusted: Lean kernel + standard axioms; hand-written parser model tied by correspondence; the spelling generator "
-              "and the oracle (harness/parser_common.py, harness/props/c01.py). Not proved: the re-alignment against omitted "
-              "command names is part of the meaning (parseSem applies it) but is not characterised further by a theorem; "
-              "conversions use CPython int()/float() as tables.")
+              "and the oracle (harness/parser_common.py, harness/props/c01.py). The re-alignment theorems assume a multi-valued argument "
+              "is the last one and argument names are distinct (what C06 guarantees for built formats) and that the positionals "
+              "fit the format; conversions use CPython int()/float() as tables. The shared-parser dimension (every line is "
+              "also parsed on a parser object that parsed another line before) is covered by the correspondence, and by C05's "
+              "theorems for the scratch state.")
 RULE = ("formats (0-5 options of every mode x type x nullable x short presence, 0-4 arguments, 0-2 command names with "
         "aliases, with/without base) x assignment x one random spelling (long=, long sp, short attached, short sp, "
-        "grouped flags, interleaving, -- tail, command names by name/alias or suffix omitted); non-trivial = at least "
+        "grouped flags, interleaving, -- tail, command names by name/alias or suffix omitted), each parsed by a fresh "
+        "parser and by a parser object that parsed another line of the format before; plus the bare line after a line "
+        "that set something; non-trivial = at least "
         "two items set; distinct = distinct (format, tokens)")
 TRUSTED_BASE = [
     "Lean 4.33 kernel; axioms within propext, Classical.choice, Quot.sound (audited per theorem on every run)",
